@@ -80,6 +80,12 @@ def run_scenarios(rep, name, progs, binaries, prop, max_steps=400):
         r = dict(model[pid])
         r["prog"] = toks
         runs.append(r)
+    skipped = [r for r in runs if not r["done"] or r["oom"]]
+    rep.coverage["scenario_programs_not_compared_" + name] = len(skipped)
+    if len(skipped) > len(runs) // 4:
+        raise vlib.ToolError("%d of %d %s scenarios were not executed to the end by the reference machine" % (len(skipped), len(runs), name))
+    if True:
+        pass
     n, u = profiles.replay(rep, runs, binaries, "scenario (%s)" % name, prop)
     rep.coverage["states"] = rep.coverage.get("states", 0) + res.distinct
     rep.coverage["transitions"] = rep.coverage.get("transitions", 0) + res.generated
